@@ -131,7 +131,7 @@ func (g *G) canNewline() bool {
 
 func (g *G) comment() {
 	g.b.WriteString("#")
-	g.b.WriteString(g.S.Pick([]string{"", " c", " comment with ; | & ( ) tokens", "!x", " $(", " \"", " '", " <<E", " é"}))
+	g.b.WriteString(g.S.Pick([]string{"", " c", " comment with ; | & ( ) tokens", "!x", " $(", " \"", " '", " <<E", " é", " was C:\\tmp\\", "\\", " a \\\\"}))
 }
 
 // sep writes a command separator inside a compound list; returns after the separator.
@@ -476,7 +476,7 @@ func (g *G) hdBody(op, delim string, quoted bool) string {
 	var b strings.Builder
 	for i := 0; i < n; i++ {
 		var line string
-		pool := 22
+		pool := 24
 		if g.O.HeredocBodyPool == 1 {
 			pool = 4
 		}
@@ -532,6 +532,14 @@ func (g *G) hdBody(op, delim string, quoted bool) string {
 				line = "$x\t" + delim
 			} else {
 				line = "$x " + delim
+			}
+		case 22:
+			line = delim + "\t" // the delimiter followed by a tab is not the delimiter
+		case 23:
+			if op == "<<-" {
+				line = "\t" + delim + "\t\t"
+			} else {
+				line = delim + " "
 			}
 		case 20, 21:
 			// a line that ends in a backslash: a continuation in an expanding body, literal text in a quoted one;
